@@ -729,19 +729,93 @@ func (s *session) exec(args []string) string {
 			delete(s.exporters, args[1])
 		}
 		return "ok"
+	case "replaycs": // replay the extracted change sets of all versions into an empty tree
+		return s.replayCS()
 	case "ifempty": // ifempty <op...>: run the operation only when the working tree is empty
 		if !t.IsEmpty() {
 			return "skipped"
 		}
 		return s.exec(args[1:])
-	case "reads": // reads <read-op...>: number of storage reads of a working-tree read
+	case "reads": // reads [imm N] <read-op...>: storage reads made by one lookup on an obtained tree
+		it := t.ImmutableTree
+		rest := args[1:]
+		if rest[0] == "imm" {
+			var err error
+			it, err = t.GetImmutable(atoi(rest[1]))
+			if err != nil {
+				return "err"
+			}
+			rest = rest[2:]
+		}
+		h := int(it.Height())
 		before := s.rec.reads
-		r := s.exec(args[1:])
-		return fmt.Sprintf("%d ## %s", s.rec.reads-before, r)
+		var r string
+		switch rest[0] {
+		case "proof":
+			p, err := it.GetProof(dec(rest[1]))
+			if err != nil {
+				r = "err"
+			} else {
+				r = fmtProof(p)
+			}
+		default:
+			r = s.immOp(it, rest)
+		}
+		return fmt.Sprintf("%d h=%d ## %s", s.rec.reads-before, h, r)
 	default:
 		// every read of the immutable API on the working tree
 		return s.immOp(t.ImmutableTree, args)
 	}
+}
+
+// replayCS: TraverseStateChanges over the whole retained range, SaveChangeSet of each into a new
+// tree (same initial version), comparing contents (and reporting whether hashes agree).
+func (s *session) replayCS() string {
+	t := s.tree
+	vs := t.AvailableVersions()
+	if len(vs) == 0 {
+		return "ok n=0 hashes=0"
+	}
+	first, last := int64(vs[0]), int64(vs[len(vs)-1])
+	twin := iavl.NewMutableTree(idb.NewMemDB(), 0, !s.cfg.fast, iavl.NewNopLogger(), iavl.InitialVersionOption(uint64(first)))
+	if _, err := twin.Load(); err != nil {
+		return "err:twinload"
+	}
+	n, hashes := 0, 0
+	bad := ""
+	err := t.TraverseStateChanges(first, last+1, func(version int64, cs *iavl.ChangeSet) error {
+		v, err := twin.SaveChangeSet(cs)
+		if err != nil {
+			bad = fmt.Sprintf("savecs-failed@%d", version)
+			return err
+		}
+		if v != version {
+			bad = fmt.Sprintf("version %d != %d", v, version)
+			return fmt.Errorf("x")
+		}
+		orig, err := t.GetImmutable(version)
+		if err != nil {
+			bad = "getimmutable"
+			return err
+		}
+		a := &pairCollector{}
+		b := &pairCollector{}
+		orig.IterateRange(nil, nil, true, a.fn)
+		twin.ImmutableTree.IterateRange(nil, nil, true, b.fn)
+		if fmtPairs(a.ps) != fmtPairs(b.ps) {
+			bad = fmt.Sprintf("contents@%d", version)
+			return fmt.Errorf("x")
+		}
+		if string(orig.Hash()) == string(twin.Hash()) {
+			hashes++
+		}
+		n++
+		return nil
+	})
+	if bad != "" || err != nil {
+		return "mismatch " + bad
+	}
+	return fmt.Sprintf("ok n=%d hashes=%d", n, hashes)
 }
 
 func (s *session) doImport(args []string) string {
